@@ -654,6 +654,214 @@ def run_limits(seed, limit: int, deltas=None):
 # ---------------------------------------------------------------------------
 # the property oracle (event log + final queues only)
 # ---------------------------------------------------------------------------
+# the name alphabet: `is_valid_object_name` (live) against the model's `validName`
+# ---------------------------------------------------------------------------
+# The pub/sub model identifies a table key "<context>.<publisher>.<signal>" with the triple (key_injective,
+# prefix_iff_same_context: both need names without '.').  The obligation: the live name rule accepts exactly the names
+# the model's `validName` accepts - every code point below 0x300 and a sample of higher ones, alone / first / middle /
+# last, and the length limits.
+
+_HIGH_CODEPOINTS = [0x037E, 0x0387, 0x03A9, 0x0430, 0x0589, 0x05D0, 0x0660, 0x06D4, 0x0967, 0x1801, 0x2024, 0x2028, 0x2029,
+                    0x202E, 0x2044, 0x2215, 0x3002, 0x4E2D, 0xA4F8, 0xD7FF, 0xE000, 0xFE52, 0xFEFF, 0xFF0E, 0xFF10, 0xFF21,
+                    0xFF41, 0xFF61, 0xFFFD, 0x10000, 0x1D7CE, 0x1F600, 0xE002E, 0x10FFFF]
+
+
+def name_alphabet_cases() -> list:
+    names = ["", "a", "a" * 62, "a" * 63, "a" * 64, "a" * 62 + "\n", "a" * 63 + "\n", "\n", "a\n", "a\n\n", "a\nb", "\na",
+             "a\r", "a\r\n", "-", "_", "(", ")", "a" * 62 + "-", "a" * 63 + "-", "Z" * 63, "9" * 64, "a" * 200]
+    for cp in list(range(0x300)) + _HIGH_CODEPOINTS:
+        c = chr(cp)
+        names += [c, c + "ab", "a" + c + "b", "ab" + c, "a" * 61 + c + "a", "a" * 62 + c + "a"]
+    return names
+
+
+def live_name_rule(name: str) -> str:
+    from harness import core
+    core.ensure_repo_on_path()
+    from qmi.core.util import is_valid_object_name
+    try:
+        return "1" if is_valid_object_name(name) else "0"
+    except Exception as e:  # noqa
+        return "raise:" + type(e).__name__
+
+
+def compare_name_alphabet(driver: str) -> tuple:
+    """returns (number of names compared, list of (name, live verdict, model verdict) that disagree)"""
+    names = name_alphabet_cases()
+    drv = LeanDriver(driver)
+    lines, chunk = [], 400
+    for i in range(0, len(names), chunk):
+        lines.append("vn " + " ".join(",".join(str(ord(ch)) for ch in n) if n else "-" for n in names[i:i + chunk]))
+    outs = drv.run(lines)
+    model = ""
+    for (l, o) in zip(lines, outs):
+        if not o.startswith("vn "):
+            raise RuntimeError(f"driver {driver}: unexpected answer {o[:80]!r} to a `vn` line")
+        model += o[3:]
+    if len(model) != len(names):
+        raise RuntimeError(f"driver {driver}: {len(names)} names in, {len(model)} verdicts out")
+    bad = []
+    for (n, mv) in zip(names, model):
+        lv = live_name_rule(n)
+        if lv != mv:
+            bad.append((n, lv, mv))
+    return len(names), bad
+
+
+def newly_accepted_chars(bad: list) -> list:
+    """characters the live rule accepts in the middle of a name and the model does not; the ones the table code gives a
+    meaning to ('.' separator, '$' internal names, ...) first"""
+    chars = []
+    for (n, lv, mv) in bad:
+        if lv == "1" and mv == "0" and len(n) == 3 and n[0] == "a" and n[2] == "b":
+            chars.append(n[1])
+    first = [c for c in ".:$*/@" if c in chars]
+    return first + [c for c in chars if c not in first]
+
+
+def run_siblings(seed, ch: str, where: str, sides=None, clause: str = "not-delivered:name-metachar"):
+    """Two names of which one extends the other by `ch`: `x` and `x<ch>y`, as publisher objects of one context
+    (`where` = "object"), as signals of one object ("signal"), or as peer contexts ("context").  Receivers - one in the
+    publisher's context, one in a client context - subscribe to both; the shorter one is removed (object), unsubscribed
+    (signal) or disconnected (context); then the longer one publishes.  Returns (Outcome, clauses); clauses = [] when all
+    publications of the longer name arrived, None when the names cannot be registered (scenario not applicable)."""
+    from harness.simworld import run_scenario
+    short, long_ = "x", "x" + ch + "y"
+
+    def body(w):
+        from qmi.core.pubsub import QMI_SignalReceiver, QMI_Signal
+        from qmi.core.rpc import QMI_RpcObject
+        from qmi.core.exceptions import QMI_UsageException
+        from harness import detsched as D
+
+        def rcv():
+            return QMI_SignalReceiver(max_queue_length=1000)
+
+        def got(r):
+            return [(s.publisher_context, s.publisher_name, s.signal_name, s.args[0]) for s in list(r._queue)]
+        notes = []
+
+        def guarded(what, fn):
+            try:
+                fn()
+            except D.SchedAbort:
+                raise
+            except BaseException as e:  # noqa
+                notes.append(f"{what} raised {type(e).__name__}: {str(e)[:80]}")
+
+        if where == "context":
+            Pub = type("Pub", (QMI_RpcObject,), {"sa": QMI_Signal([int])})
+            try:
+                S = w.context(short, server=True)
+                L = w.context(long_, server=True)
+            except (QMI_UsageException, ValueError):
+                return None
+            A = w.context("A", server=True)
+            w.connect(A, S)
+            w.connect(A, L)
+            S.make_rpc_object("pm", Pub)
+            L.make_rpc_object("pm", Pub)
+            rs, rl = rcv(), rcv()
+            A.subscribe_signal(short, "pm", "sa", rs)
+            A.subscribe_signal(long_, "pm", "sa", rl)
+            L.publish_signal("pm", "sa", 1)
+            D.TIME_SHIM.sleep(1.0)
+            guarded(f"disconnect_from_peer({short!r})", lambda: A.disconnect_from_peer(short))
+            D.TIME_SHIM.sleep(1.0)
+            L.publish_signal("pm", "sa", 2)
+            L.publish_signal("pm", "sa", 3)
+            D.TIME_SHIM.sleep(1.0)
+            return {"remote": [x[3] for x in got(rl) if x[0] == long_]}, notes
+        if where == "signal":
+            try:
+                Pub = type("Pub", (QMI_RpcObject,), {short: QMI_Signal([int]), long_: QMI_Signal([int])})
+                P = w.context("P", server=True)
+                PA = w.context("PA", server=True)
+                w.connect(PA, P)
+                P.make_rpc_object("pm", Pub)
+                r1, r2, r3, r4 = rcv(), rcv(), rcv(), rcv()
+                P.subscribe_signal("P", "pm", short, r1)
+                P.subscribe_signal("P", "pm", long_, r2)
+                PA.subscribe_signal("P", "pm", short, r3)
+                PA.subscribe_signal("P", "pm", long_, r4)
+            except (QMI_UsageException, ValueError):
+                return None
+            P.publish_signal("pm", long_, 1)
+            D.TIME_SHIM.sleep(1.0)
+            guarded("unsubscribe_signal (local)", lambda: P.unsubscribe_signal("P", "pm", short, r1))
+            guarded("unsubscribe_signal (remote)", lambda: PA.unsubscribe_signal("P", "pm", short, r3))
+            D.TIME_SHIM.sleep(1.0)
+            P.publish_signal("pm", long_, 2)
+            P.publish_signal("pm", long_, 3)
+            D.TIME_SHIM.sleep(1.0)
+            return {"local": [x[3] for x in got(r2) if x[2] == long_], "remote": [x[3] for x in got(r4) if x[2] == long_]}, notes
+        # objects
+        Pub = type("Pub", (QMI_RpcObject,), {"sa": QMI_Signal([int])})
+        P = w.context("P", server=True)
+        PA = w.context("PA", server=True)
+        w.connect(PA, P)
+        try:
+            ps = P.make_rpc_object(short, Pub)
+            P.make_rpc_object(long_, Pub)
+        except (QMI_UsageException, ValueError):
+            return None
+        r1, r2, r3, r4 = rcv(), rcv(), rcv(), rcv()
+        try:
+            P.subscribe_signal("P", short, "sa", r1)
+            P.subscribe_signal("P", long_, "sa", r2)
+            PA.subscribe_signal("P", short, "sa", r3)
+            PA.subscribe_signal("P", long_, "sa", r4)
+        except (QMI_UsageException, ValueError):
+            return None
+        P.publish_signal(long_, "sa", 1)
+        D.TIME_SHIM.sleep(1.0)
+        guarded(f"remove_rpc_object({short!r})", lambda: P.remove_rpc_object(ps))
+        D.TIME_SHIM.sleep(1.0)
+        P.publish_signal(long_, "sa", 2)
+        P.publish_signal(long_, "sa", 3)
+        D.TIME_SHIM.sleep(1.0)
+        return {"local": [x[3] for x in got(r2) if x[1] == long_], "remote": [x[3] for x in got(r4) if x[1] == long_]}, notes
+
+    out = run_scenario(seed, body, policy="weighted", max_steps=400000)
+    if out.deadlock:
+        return out, [(clause, f"{where} names {short!r} and {long_!r}: deadlock: {out.deadlock[:200]}")]
+    if out.error is not None:
+        return out, [(clause, f"{where} names {short!r} and {long_!r}: scenario error {out.error!r}"[:300])]
+    if out.value is None:
+        return out, None
+    (seen, notes) = out.value
+    action = {"object": f"remove_rpc_object({short!r})", "signal": f"unsubscribe_signal(.., {short!r}, ..)",
+              "context": f"disconnect_from_peer({short!r})"}[where]
+    bad = []
+    for (side, vals) in seen.items():
+        if sides is not None and side not in sides:
+            continue
+        if vals != [1, 2, 3]:
+            bad.append((clause,
+                        f"{where} names {short!r} and {long_!r} (U+{ord(ch):04X} accepted by is_valid_object_name): a {side} receiver "
+                        f"subscribed to {long_!r} throughout got publications {vals} of [1, 2, 3]; between 1 and 2: {action}"
+                        + (f"; {'; '.join(notes)}" if notes else "")))
+    if not bad and notes:
+        bad.append((clause, f"{where} names {short!r} and {long_!r}: {'; '.join(notes)}"))
+    return out, bad
+
+
+def search_siblings(ctx, chars: list, res, prop: str = "C07", limit: int = 8, sides=None,
+                    clause: str = "not-delivered:name-metachar") -> None:
+    for ch in chars[:limit]:
+        for where in ("object", "context", "signal"):
+            seed = ctx.rng.randrange(1 << 30)
+            out, bad = run_siblings(seed, ch, where, sides=sides, clause=clause)
+            res.note_case(("siblings", ord(ch), where))
+            if bad:
+                (clause, detail) = bad[0]
+                res.failures.append(Failure(f"{prop}:{clause}", f"seed={seed}: {detail}",
+                                            {"kind": "siblings", "seed": seed, "ch": ord(ch), "where": where, "clause": clause,
+                                             "sides": sides}))
+                return
+
+
+# ---------------------------------------------------------------------------
 
 def oracle(spec: dict, out, tr) -> list:
     """Returns a list of (clause, detail).  Statement of C07, evaluated on what the implementation did."""
@@ -845,6 +1053,10 @@ class C07(Prop):
         "set iteration order is a choice parameter of the model (any order allowed); request ids are fresh counters; a KeyError of "
         "_handle_subscription_reply (unknown request id) is a contained no-op",
         "receiver queues: capacity never reached in the model (the queue itself is property C09)",
+        "names: the model works with (context, publisher, signal) triples; that the string keys of the tables determine the triple "
+        "is proved for names without '.' (key_injective, prefix_iff_same_context, validName_no_dot), and the live "
+        "is_valid_object_name is compared with the model's validName on every code point below U+0300 and a sample above, in "
+        "every position, and on the length limits; names are not checked anywhere else (internal names with '$' bypass the rule)",
         "the deterministic scheduler, the simulated network and the tap layer (harness/props/pubsub_common.py)",
     ]
 
@@ -941,6 +1153,16 @@ class C07(Prop):
         res = Result(rule="scenario = (contexts, publishers, receivers, pre-subscriptions, subscriber-thread op lists, publication "
                           "bursts, scheduling policy) from the seeded PRNG + a schedule derived from the scenario seed; non-trivial = at "
                           "least one delivery and one concurrent subscriber thread; distinct by (seed, scenario)")
+        # the name alphabet first: the model's table keys are triples because names contain no '.'
+        n_names, bad_names = compare_name_alphabet(self.driver)
+        res.count("names_compared_with_validName", n_names)
+        if bad_names:
+            shown = ", ".join(f"{n!r}: live {lv} model {mv}" for (n, lv, mv) in bad_names[:6])
+            res.broken.append(Broken("correspondence", "PubSub.validName vs qmi.core.util.is_valid_object_name",
+                                     f"{len(bad_names)} of {n_names} names judged differently, e.g. {shown}",
+                                     case={"kind": "name-alphabet",
+                                           "accepted_chars": [ord(c) for c in newly_accepted_chars(bad_names)]}))
+            return res        # the scenarios below use plain names: they would say nothing about this breakage
         n = ctx.scale(780, 8000)
         cases = []
         for i in range(n):
@@ -979,6 +1201,12 @@ class C07(Prop):
 
     def search(self, ctx: Ctx, broken) -> Result:
         res = Result()
+        # a wider name alphabet: sibling names `x` / `x<c>y` for every newly accepted character
+        for b in broken:
+            if b.case and b.case.get("kind") == "name-alphabet":
+                search_siblings(ctx, [chr(c) for c in b.case.get("accepted_chars", [])], res)
+                if res.failures:
+                    return res
         # the disagreeing cases first
         for b in broken:
             if b.case and "spec" in b.case:
@@ -1019,6 +1247,10 @@ class C07(Prop):
         return res
 
     def replay(self, ctx: Ctx, rp: dict):
+        if rp.get("kind") == "siblings":
+            out, bad = run_siblings(rp["seed"], chr(rp["ch"]), rp["where"], sides=rp.get("sides"),
+                                    clause=rp.get("clause", "not-delivered:name-metachar"))
+            return Failure(f"C07:{bad[0][0]}", bad[0][1], rp) if bad else None
         if rp.get("kind") == "limits":
             out, bad = run_limits(rp["seed"], rp["limit"])
             for (clause, detail) in bad:
